@@ -42,7 +42,7 @@ type FaultCfg struct {
 // consumed; with all rates at zero nothing is drawn.
 func (w *World) decideFault(c *Call) Kind {
 	f := w.Faults
-	if f == nil {
+	if f == nil || c.NoFault {
 		return FNone
 	}
 	for _, p := range f.Plan {
